@@ -19,5 +19,20 @@ add("C04", "exploration",
     "Default renderer, no highlight callback; test-double linkifier; the core 'inline' step is additionally switched off in a small share of cases (raw content then reaches the renderer).",
     "property-based testing (Hypothesis; sink-directed payload templates + general generators); oracle: strict grammar of the output language",
     "DESIGN.md section 4, C04")
+add("C05", "exploration",
+    "Generated search over semantic URLs x per-character spellings x prefixes/suffixes x the link producers x configurations; every href/src on tokens and in HTML is judged by an independent URL-safety grammar and a browser-style scheme reader; rejected constructs must render exactly as with the link rules switched off; normalizeLink/validateLink are also driven directly.",
+    "The browser model (strip C0+space at the ends, drop TAB/CR/LF, case-insensitive) follows the WHATWG URL preprocessing; the linkifier is a permissive test double.",
+    "property-based testing (Hypothesis; semantic URL x spelling generator); oracle: independent URL grammar + scheme blacklist reader, differential 'link rules off' relation",
+    "DESIGN.md section 4, C05")
+add("C06", "exploration",
+    "Generated search over newline-terminated tab-free documents and chains of 1-3 (thorough 6) quote/list wrappers; after every wrapping step the parse must be exactly one container whose contents equal the previous parse token for token (maps, content, markup, info, attrs, meta, children; level shifted), with equal reference definitions.",
+    "commonmark rules, maxNesting=100; list form ignores the tight-list hidden flag and indentation kept on lazy continuation lines, exactly the exceptions the property names.",
+    "property-based testing (Hypothesis); oracle: metamorphic relation (CommonMark container laws) applied repeatedly",
+    "DESIGN.md section 4, C06")
+add("C07", "exploration",
+    "Generated search over pairs (A, B) x configurations; side conditions (A closed, B at column 0, not list+list/code+code) are decided on probe parses; block tokens of A+blank+B must equal those of A+blank followed by those of B with shifted maps.",
+    "A is compared together with its separating blank line; children excluded as the property states.",
+    "property-based testing (Hypothesis; seam-directed catalogue of single blocks + constructive documents); oracle: metamorphic concatenation relation with probe-decided preconditions",
+    "DESIGN.md section 4, C07")
 ALL = ["C%02d" % i for i in range(1, 21)]
 NA = [{"property_id": p, "reason": "check under construction in this round; not claimed until its oracle is built and shown quiet on the unchanged tree"} for p in ALL if p not in CHECKS]
